@@ -5,10 +5,14 @@
 package core
 
 import (
+	"bytes"
 	"encoding/json"
 	"fmt"
 	"hash/fnv"
+	"io"
 	"math"
+	"os"
+	"os/exec"
 	"runtime/debug"
 	"sort"
 	"strings"
@@ -55,6 +59,29 @@ type Violation struct {
 	Shard   int    `json:"shard"`
 	NShards int    `json:"nshards,omitempty"`
 	Tier    string `json:"tier,omitempty"`
+	// Alts holds the first failing case of every other kind with the same
+	// signature: if the primary case does not fail when replayed alone (its
+	// failure depended on earlier cases) a self-contained one may.
+	Alts []AltCase `json:"alts,omitempty"`
+}
+
+// AltCase is an alternative witness of a violation.
+type AltCase struct {
+	Kind string          `json:"kind"`
+	Msg  string          `json:"message"`
+	Case json.RawMessage `json:"case"`
+}
+
+func (v *Violation) addAlt(kind, msg string, c json.RawMessage) {
+	if kind == v.Kind || len(v.Alts) >= 4 {
+		return
+	}
+	for _, a := range v.Alts {
+		if a.Kind == kind {
+			return
+		}
+	}
+	v.Alts = append(v.Alts, AltCase{kind, msg, c})
 }
 
 // Margin tracks the worst observed error relative to its tolerance.
@@ -220,6 +247,11 @@ func (r *Rec) record(m map[string]*Violation, sig, format string, args ...any) {
 	v := m[sig]
 	if v != nil {
 		v.Count++
+		if v.Kind != r.curKind && len(v.Alts) < 4 {
+			if b, err := json.Marshal(r.cur); err == nil {
+				v.addAlt(r.curKind, fmt.Sprintf(format, args...), b)
+			}
+		}
 		return
 	}
 	if len(m) >= 64 {
@@ -326,8 +358,23 @@ func (r *Rec) Merge(o *Rec) {
 			}
 			d.Count += v.Count
 			if len(v.Case) < len(d.Case) || (len(v.Case) == len(d.Case) && v.Order < d.Order) {
+				ok, oc, om := d.Kind, d.Case, d.Msg
 				d.Order, d.Case, d.Msg, d.Kind = v.Order, v.Case, v.Msg, v.Kind
+				d.Shard, d.NShards, d.Tier = v.Shard, v.NShards, v.Tier
+				d.addAlt(ok, om, oc)
+			} else {
+				d.addAlt(v.Kind, v.Msg, v.Case)
 			}
+			for _, a := range v.Alts {
+				d.addAlt(a.Kind, a.Msg, a.Case)
+			}
+			kept := d.Alts[:0]
+			for _, a := range d.Alts {
+				if a.Kind != d.Kind {
+					kept = append(kept, a)
+				}
+			}
+			d.Alts = kept
 		}
 	}
 	mergeV(r.Viol, o.Viol)
@@ -415,6 +462,70 @@ func ReplayOf[T any](name string, check func(c *T, r *Rec)) Kind {
 		r.Try(func() { check(&c, r) })
 		return nil
 	}}
+}
+
+// Isolated runs one case of the given kind in a fresh process (the mc binary's
+// "isolated" sub-command) and merges what it recorded. It is for history cases
+// about process-wide state: the history then really starts from the initial
+// state, whatever this worker did before, and a failure replays alone.
+func (r *Rec) Isolated(kind string, c any) {
+	raw, err := json.Marshal(c)
+	if err != nil {
+		panic(err)
+	}
+	self, err := os.Executable()
+	if err != nil {
+		panic(err)
+	}
+	cmd := exec.Command(self, "isolated", r.Property, kind)
+	cmd.Stdin = bytes.NewReader(raw)
+	var out, errb bytes.Buffer
+	cmd.Stdout, cmd.Stderr = &out, &errb
+	runErr := cmd.Run()
+	var sub Rec
+	if runErr != nil || json.Unmarshal(out.Bytes(), &sub) != nil {
+		// the process died (fatal error inside the case) or produced no record
+		r.Evals++
+		tail := errb.String()
+		if len(tail) > 1500 {
+			tail = tail[:1500]
+		}
+		r.FailRaw(kind, "crash:isolated:"+panicSite(tail), fmt.Sprintf("isolated case died: %v\n%s", runErr, tail), raw)
+		return
+	}
+	r.Merge(&sub)
+	r.Count("isolated_processes", 1)
+}
+
+// RunIsolated is the child side of Isolated: it replays the case read from in
+// on a fresh recorder and writes the recorder to out.
+func RunIsolated(prop, kind string, in io.Reader, out io.Writer) int {
+	p := Lookup(prop)
+	if p == nil {
+		return 2
+	}
+	raw, err := io.ReadAll(in)
+	if err != nil {
+		return 2
+	}
+	for i := range p.Kinds {
+		if p.Kinds[i].Name == kind {
+			r := NewRec(prop, 0)
+			if err := p.Kinds[i].Replay(raw, r); err != nil {
+				fmt.Fprintln(os.Stderr, err)
+				return 2
+			}
+			r.Finish()
+			b, err := json.Marshal(r)
+			if err != nil {
+				fmt.Fprintln(os.Stderr, err)
+				return 2
+			}
+			out.Write(b)
+			return 0
+		}
+	}
+	return 2
 }
 
 // Bulk adds counts produced by an external harness process.
